@@ -7,7 +7,7 @@ import (
 	yaml "gopkg.in/yaml.v2"
 )
 
-const c01Kinds = 15
+const c01Kinds = 18
 
 func c01Hostile(k int) any {
 	switch k {
@@ -42,6 +42,12 @@ func c01Hostile(k int) any {
 			A int
 			b int
 		}{1, 2}
+	case 15:
+		return struct{ X any }{map[string]any{"a": 1}}
+	case 16:
+		return []any{[1]any{[]int{1}}, [1]any{[]int{1}}}
+	case 17:
+		return []*int{nil, nil}
 	default:
 		x := nd.Int()
 		return &x
@@ -88,21 +94,45 @@ func VerifC01Tags() {
 	nd.Reach("C01.tags")
 }
 
-// VerifC01RangeLoops: loops over ranges with arbitrary endpoints never panic
-// (length bounded to 4: a long range legitimately takes proportional time).
+// VerifC01RangeLoops: loops and filters over ranges with arbitrary 64-bit endpoints never panic and
+// return. Short ranges (<= 4 elements, anywhere in the int range) render exactly; ranges of more than
+// 2^24 elements are sized and looped lazily (with a limit) and refused by filters that need an array.
 func VerifC01RangeLoops() {
 	lo, hi := nd.Int(), nd.Int()
-	nd.Assume(lo > -(1<<40) && lo < 1<<40 && hi > -(1<<40) && hi < 1<<40)
-	nd.Assume(hi < lo || hi-lo <= 3)
+	d := hi - lo
+	if nd.Choice(2) == 0 {
+		nd.Assume(hi < lo || (d >= 0 && d <= 3))
+		nd.LoopBound(5000) // four elements: any loop running longer does not terminate in proportional time
+		t := []string{
+			"{% for i in (lo..hi) %}x{% endfor %}",
+			"{% for i in (lo..hi) reversed limit: 1 %}x{% else %}E{% endfor %}",
+			"{{ (lo..hi) | size }}{% assign r = (lo..hi) %}{{ r | first }}",
+			"{% tablerow i in (lo..hi) cols: 2 %}x{% endtablerow %}",
+			"{% assign r = (lo..hi) %}{{ r | last }}{{ r | reverse | first }}",
+		}[nd.Choice(5)]
+		_, err := vRender(t, Bindings{"lo": lo, "hi": hi})
+		nd.Assert(err == nil, "range-loop-no-error")
+		nd.Reach("C01.rangeloops")
+		return
+	}
+	nd.Assume(hi >= lo && (d < 0 || d > 1<<24))
+	k := nd.Choice(4)
 	t := []string{
-		"{% for i in (lo..hi) %}x{% endfor %}",
-		"{% for i in (lo..hi) reversed limit: 1 %}x{% else %}E{% endfor %}",
-		"{{ (lo..hi) | size }}{% assign r = (lo..hi) %}{{ r | first }}",
-		"{% tablerow i in (lo..hi) cols: 2 %}x{% endtablerow %}",
-	}[nd.Choice(4)]
-	_, err := vRender(t, Bindings{"lo": lo, "hi": hi})
-	nd.Assert(err == nil, "range-loop-no-error")
-	nd.Reach("C01.rangeloops")
+		"{% for i in (lo..hi) limit: 2 %}x{% endfor %}",
+		"{% assign r = (lo..hi) %}{{ r | size }}{{ r.size }}",
+		"{% assign r = (lo..hi) %}{{ r | first }}",
+		"{% assign r = (lo..hi) %}{{ r | join }}",
+	}[k]
+	out, err := vRender(t, Bindings{"lo": lo, "hi": hi})
+	switch k {
+	case 0:
+		nd.Assert(err == nil && out == "xx", "huge-range-loop-lazy")
+	case 1:
+		nd.Assert(err == nil, "huge-range-size")
+	default:
+		nd.Assert(err != nil && out == "", "huge-range-array-refused")
+	}
+	nd.Reach("C01.rangeloops.huge")
 }
 
 var c01Sources = []string{
